@@ -35,7 +35,8 @@ def connOf : Option Uuid → Conn
     accessory's maps or handler fields: answers to pair-setup / POST /pairings advance the pairing list
     as in `observe`; an exchange answered M4-without-error on connection `c`, whose identifier parses to
     `u`, makes `u` the prover of `c` and (only if no bytes are known for `u`) records the presented
-    bytes; a restart forgets every connection and keeps the pairing list. -/
+    bytes; a restart or a stop of the driver
+    forgets every connection and keeps the pairing list. -/
 def hobserve (parse : Bytes → Option Uuid) (a : Abs) (who : Who) : HOp → HAns → Abs × Who
   | .s (.setup idb key), .resp r _ => (observe parse a (.setup idb key) r, who)
   | .s (.req _ body), .resp r _ => (if r.isError then a else observeReq parse a body, who)
@@ -47,6 +48,7 @@ def hobserve (parse : Bytes → Option Uuid) (a : Abs) (who : Who) : HOp → HAn
       | none => (a, who)
     | none => (a, who)
   | .restart, _ => (a, fun _ => none)
+  | .stop, _ => (a, fun _ => none)
   | _, _ => (a, who)
 
 /-- run a history on the model and the observer side by side -/
@@ -157,6 +159,7 @@ theorem hrel_step (parse : Bytes → Option Uuid) (hN : NamesOK) (w : World) (a 
   | restart =>
     simp only [hstep, restart_identity hN w.acc h.wf, hobserve]
     exact ⟨h.rel, fun _ => rfl, h.u2b, h.priv, h.pub⟩
+  | stop => exact ⟨h.rel, fun _ => rfl, h.u2b, h.priv, h.pub⟩
 
 /-- after every whole-life history, started in corresponding states, the invariant holds -/
 theorem hrel_run (parse : Bytes → Option Uuid) (hN : NamesOK) (ops : List HOp) (w : World) (a : Abs) (who : Who)
